@@ -51,6 +51,16 @@ func getTaintedIndices(info *FetchInfo, rootName string, data *astjson.Value, er
 			}
 
 			lastIndex := len(pathItems) - 1
+			if lastIndex-i == 1 && pathItems[lastIndex].Type() == astjson.TypeNumber {
+				// [root, index]: the whole entity failed; it is tainted when it came back as null
+				// (none of its nullable required fields was delivered)
+				if index := pathItems[lastIndex].GetInt(); index >= 0 {
+					if entity := data.Get(strconv.Itoa(index)); entity != nil && entity.Type() == astjson.TypeNull {
+						indices = append(indices, index)
+					}
+				}
+				break
+			}
 			// The remaining pathItems should have at least 2 items:
 			if lastIndex-i <= 1 {
 				break
